@@ -378,7 +378,9 @@ class World(BaseWorld):
             return {"H": lambda: G.H, "CX": lambda: G.CX, "Rx": lambda: G.Rx(spec.get("phase", 0.25)),
                     "Ket": lambda: G.Ket(0, 1), "Bra": lambda: G.Bra(1), "Measure": lambda: C.Measure(),
                     "Discard": lambda: C.Discard(), "SWAP": lambda: G.SWAP,
-                    "CRz": lambda: G.CRz(spec.get("phase", 0.25))}[which]()
+                    "CRz": lambda: G.CRz(spec.get("phase", 0.25)),
+                    "Rx_sym": lambda: G.Rx(__import__("sympy").Symbol("phi")),
+                    "CRz_sym": lambda: G.CRz(2 * __import__("sympy").Symbol("phi"))}[which]()
         raise HarnessError("no special values for " + family)
 
     def op_binop(self, op):
@@ -452,6 +454,23 @@ class World(BaseWorld):
             thunk = lambda: a.downgrade()
         elif f == "layers_slices":
             thunk = lambda: [a[:k] >> a[k:] for k in range(len(a) + 1)]
+        elif f in ("circuit2zx", "init_and_discard", "tk_roundtrip", "grad", "subs"):
+            if family != "circuit" or len(a) > 8:
+                return "skipped"
+            import sympy
+            phi = sympy.Symbol("phi")
+            if f == "circuit2zx":
+                from discopy.quantum.zx import circuit2zx
+                thunk = lambda: circuit2zx(a)
+            elif f == "init_and_discard":
+                thunk = lambda: a.init_and_discard()
+            elif f == "tk_roundtrip":
+                from discopy.quantum.circuit import Circuit
+                thunk = lambda: Circuit.from_tk(a.to_tk())
+            elif f == "grad":
+                thunk = lambda: a.grad(phi)
+            else:
+                thunk = lambda: a.subs(phi, 0.25)
         else:
             raise HarnessError(f)
         v, out = self.request(True, f, thunk)
@@ -838,7 +857,7 @@ class Driver:
                     "dim": gen.choice([2, 3])}
         if family == "circuit":
             return {"kind": "special", "which": gen.choice(["H", "CX", "Rx", "Ket", "Bra", "Measure", "Discard",
-                                                            "SWAP", "CRz"]), "phase": gen.choice([0.25, 0.5])}
+                                                            "SWAP", "CRz", "Rx_sym", "CRz_sym"]), "phase": gen.choice([0.25, 0.5])}
         return None
 
     def next_op(self, world):
@@ -886,7 +905,9 @@ class Driver:
         if r < 0.45:
             f = sched.choice(["dagger", "dagger_method", "iter", "layers_slices", "bubble", "downgrade",
                               "depth_width", "foliation", "foliation_flatten", "foliate_all", "normalize_all",
-                              "normal_form", "transpose_l", "transpose_r"])
+                              "normal_form", "transpose_l", "transpose_r"] + (
+                                  ["circuit2zx", "init_and_discard", "tk_roundtrip", "grad", "subs"] * 2
+                                  if family == "circuit" else []))
             return {"op": "unop", "f": f, "a": a, "dst": self.dst(), "left": sched.random() < 0.5}
         if r < 0.55:
             if illegal:
